@@ -42,13 +42,23 @@ class Adjoint(BaseForm):
         form = args[0]
         # Check trivial case: This is not a ufl.Zero but a ZeroBaseForm!
         if form == 0:
-            # Swap the arguments
-            return ZeroBaseForm(form.arguments()[::-1])
+            # Swap the arguments, with the canonical numbering that
+            # `Adjoint.arguments()` uses.
+            return ZeroBaseForm(
+                tuple(
+                    type(arg)(arg.ufl_function_space(), number=i)
+                    for i, arg in enumerate(form.arguments()[::-1])
+                )
+            )
 
         if isinstance(form, Adjoint):
             return form._form
-        elif isinstance(form, FormSum):
-            # Adjoint distributes over sums
+        elif isinstance(form, FormSum) and not any(
+            isinstance(c, Coargument) for c in form.components()
+        ):
+            # Adjoint distributes over sums (unless a component is a
+            # Coargument, whose adjoint simplifies to a primal Argument:
+            # not a BaseForm, it cannot be a FormSum component)
             return FormSum(*((Adjoint(c), w) for c, w in zip(form.components(), form.weights())))
         elif isinstance(form, Coargument):
             # The adjoint of a coargument `c: V* -> V*` is the identity
